@@ -36,6 +36,12 @@ func genRouting() {
 	m.strs("getMoreSpecificHostnameStmts", rc.stmts(rc.fn("", "GetMoreSpecificHostname").Body), "statements of graph.GetMoreSpecificHostname")
 	m.strs("findAcceptedHostnamesStmts", rc.stmts(rc.fn("", "findAcceptedHostnames").Body), "statements of graph.findAcceptedHostnames")
 	m.str("graphWildcardHostname", rc.strConst("wildcardHostname"), "graph.wildcardHostname")
+	// --- graph/validation.go: validateHostname (what Model/PipelineTlsEval.hostDNS mirrors) and its two callers
+	vd := src("internal/mode/static/state/graph/validation.go")
+	m.strs("validateHostnameStmts", vd.stmts(vd.fn("", "validateHostname").Body), "statements of graph.validateHostname")
+	m.strs("validateHostnamesStmts", rc.stmts(rc.fn("", "validateHostnames").Body), "statements of graph.validateHostnames (route hostnames)")
+	gl := src("internal/mode/static/state/graph/gateway_listener.go")
+	m.strs("validateListenerHostnameStmts", gl.stmts(gl.fn("", "validateListenerHostname").Body), "statements of graph.validateListenerHostname")
 	m.strs("isRouteNamespaceAllowedStmts", rc.stmts(rc.fn("", "isRouteNamespaceAllowedByListener").Body), "statements of graph.isRouteNamespaceAllowedByListener")
 	m.strs("findAttachableListenersStmts", rc.stmts(rc.fn("", "findAttachableListeners").Body), "statements of graph.findAttachableListeners")
 	// validateParentRef must hand the parentRef's sectionName to findAttachableListeners
